@@ -267,31 +267,35 @@ def moveLoop : Nat → List Nat → Nat → Nat → List Nat
     let a := setAt a (src + i) 0
     moveLoop i a dest src
 
+/-- `if (input[0] == ':') { if (pointer + 1 == end || pointer[1] != ':') return false; pointer += 2; compress = ++piece_index; }` -/
+def v6Start (input : Bytes) : Option (Bytes × Nat × Option Nat) :=
+  match input with
+  | [] => some (input, 0, none)
+  | c :: rest =>
+    if c == 0x3A then
+      (match rest with
+       | [] => none
+       | c2 :: rest' => if c2 == 0x3A then some (rest', 1, some 1) else none)
+    else some (input, 0, none)
+
+/-- the last lines of `parse_ipv6`: move the pieces behind `::` to the end, or require eight pieces -/
+def finC (address : List Nat) (pieceIndex : Nat) (compress : Option Nat) : Option (List Nat) :=
+  match compress with
+  | some c =>
+    let right := pieceIndex - c
+    if right > 0 then
+      let dest := 8 - right
+      if dest != c then some (moveLoop right address dest c) else some address
+    else some address
+  | none => if pieceIndex != 8 then none else some address
+
 /-- `url::parse_ipv6(input)`: the eight pieces on success -/
 def parseIpv6 (input : Bytes) : Option (List Nat) :=
   if input.isEmpty || input.length > 45 then none else
-  let address := List.replicate 8 0
-  let start : Option (Bytes × Nat × Option Nat) :=
-    match input with
-    | 0x3A :: rest =>
-      (match rest with
-       | 0x3A :: rest' => some (rest', 1, some 1)
-       | _ => none)
-    | _ => some (input, 0, none)
-  match start with
+  match v6Start input with
   | none => none
   | some (p, pieceIndex, compress) =>
-    match v6Loop (input.length + 1) p address pieceIndex compress with
-    | none => none
-    | some (address, pieceIndex, compress) =>
-      match compress with
-      | some c =>
-        let right := pieceIndex - c
-        if right > 0 then
-          let dest := 8 - right
-          if dest != c then some (moveLoop right address dest c) else some address
-        else some address
-      | none => if pieceIndex != 8 then none else some address
+    (v6Loop (input.length + 1) p (List.replicate 8 0) pieceIndex compress).bind (fun r => finC r.1 r.2.1 r.2.2)
 
 /-- `find_longest_sequence_of_ipv6_pieces`: (compress, compress_length) -/
 def findLongest : Nat → List Nat → Nat → Nat → Nat → Nat × Nat
